@@ -10,7 +10,10 @@ A key token is `<name>/<maxChunks>`; a token starting with `@` is a key derived 
 (the real key is name ++ actionID): the model key is the action id followed by the token.
 `sz` are the byte lengths of the actions, `alen` the length
 of the real auth bytes, `bw`/`ac` = `authFactory.MaxUnits()`, `aac` = `auth.ComputeUnits`.
+`faddr`/`actor` are `authFactory.Address()` and `tx.Auth.Actor()` (hex, used as opaque strings).
 Output: `est=<b,c,r,a,w|err> units=<b,c,r,a,w|err>`.
+`gen <same tokens> prices=<p0,..,p4> win=<ms>` runs the model of `GenerateTransaction` at timestamp `ts`:
+`maxfee=<n> units=<…|err> fee=<n|err>` or `err`.
 -/
 namespace Driver.C14
 open HyperModel.Canoto HyperModel.Estimate
@@ -24,21 +27,27 @@ structure Auth where
   len : Nat
   compute : Nat
   sponsorKeys : List Bytes
+  actor : Bytes
 
 def strBytes (s : String) : Bytes := s.toUTF8.toList
 
-/-- `name/chunks` ↦ chunks -/
-def chunksOf (k : Bytes) : Nat :=
+/-- `name/chunks` ↦ chunks; a token containing `!` is a malformed key (shorter than 2 bytes) -/
+def chunksOf (k : Bytes) : Option Nat :=
+  if k.contains (UInt8.ofNat 33) then none else
   let s := String.ofList (k.map fun b => Char.ofNat b.toNat)
   match s.splitOn "/" with
-  | [_, c] => c.toNat?.getD 0
-  | _ => 0
+  | [_, c] => c.toNat?
+  | _ => none
 
 def env : Env Act Auth :=
   { pa := { parse := fun _ => none, bytes := fun a => List.replicate a.size 0 }
     pu := { parse := fun _ => none, bytes := fun a => List.replicate a.len 0 }
     compute := (·.compute)
-    keys := fun a id => a.keys.map fun k => if k.head? == some (UInt8.ofNat 64) then id ++ k else k
+    -- `@name/c`: key derived from the action id; `%name/c`: key derived from the actor
+    keys := fun a actor id => a.keys.map fun k =>
+      if k.head? == some (UInt8.ofNat 64) then id ++ k
+      else if k.head? == some (UInt8.ofNat 37) then actor ++ k else k
+    actor := (·.actor)
     -- CreateActionID(txID, i): distinct per (txID, i); ids.Empty = zeros 32; ToID(tx) ≠ ids.Empty
     actionID := fun tx i => strBytes (if tx == emptyID then "E" else "T") ++ strBytes s!"#{i}~"
     txID := fun _ => strBytes "T"
@@ -51,7 +60,6 @@ def natsCSV (s : String) : Option (List Nat) :=
 def keysOf (s : String) : List Bytes :=
   if s == "-" then [] else (s.splitOn "+").map strBytes
 
-def le8 (n : Nat) : Bytes := (List.range 8).map fun i => UInt8.ofNat (n / 256 ^ i % 256)
 
 def kv (ws : List String) (k : String) : Option String :=
   (ws.find? (·.startsWith (k ++ "="))).map fun w => (w.drop (k.length + 1)).toString
@@ -72,7 +80,18 @@ def zipActs : List String → List Nat → Option (List Act)
     | _, _ => none
   | _, _ => none
 
-def run (ws : List String) : Option String := do
+structure Case where
+  ts : Int
+  chain : Bytes
+  fee : Nat
+  r : Rules
+  acts : List Act
+  auth : Auth
+  faddr : Bytes
+  bw : Nat
+  ac : Nat
+
+def parseCase (ws : List String) : Option Case := do
   let ts ← (← kv ws "ts").toInt?
   let chain ← parseHex (← kv ws "chain")
   let fee ← (← kv ws "fee").toNat?
@@ -84,21 +103,54 @@ def run (ws : List String) : Option String := do
   let sp ← natsCSV (← kv ws "sp")
   let spk := keysOf (← kv ws "spk")
   let sz ← natsCSV (← kv ws "sz")
+  let faddr := strBytes (← kv ws "faddr")
+  let actor := strBytes (← kv ws "actor")
   let aws := (ws.filter (·.startsWith "a=")).map fun w => (w.drop 2).toString
   let acts ← zipActs aws sz
   match rs with
   | [b, kr, vr, ka, va, kw, vw] =>
-    let r : Rules := { baseCompute := b, keyRead := kr, valRead := vr, keyAlloc := ka, valAlloc := va,
-                       keyWrite := kw, valWrite := vw, sponsorChunks := sp }
-    let t : Tx Act Auth :=
-      { base := { timestamp := ts, chainID := chain, maxFee := le8 fee }, actions := acts,
-        auth := { len := alen, compute := aac, sponsorKeys := spk } }
-    some s!"est={showDims (estimateUnits env r acts bw ac)} units={showDims (units env r t)}"
+    some { ts, chain, fee, acts, faddr, bw, ac
+           r := { baseCompute := b, keyRead := kr, valRead := vr, keyAlloc := ka, valAlloc := va,
+                  keyWrite := kw, valWrite := vw, sponsorChunks := sp }
+           auth := { len := alen, compute := aac, sponsorKeys := spk, actor } }
+  | _ => none
+
+/-- `case …`: EstimateUnits and Units of the transaction signed over the given base -/
+def run (ws : List String) : Option String := do
+  let c ← parseCase ws
+  let t : Tx Act Auth :=
+    { base := { timestamp := c.ts, chainID := c.chain, maxFee := le64 c.fee }, actions := c.acts, auth := c.auth }
+  some s!"est={showDims (estimateUnits env c.r c.acts c.faddr c.bw c.ac)} units={showDims (units env c.r t)}"
+
+def showOpt : Option Nat → String
+  | none => "err"
+  | some n => toString n
+
+/-- `gen … prices=<5 nums> win=<validity window>`: the real `GenerateTransaction` at timestamp
+`ts`, then Units and fee of the generated transaction under the same rules and prices -/
+def runGen (ws : List String) : Option String := do
+  let c ← parseCase ws
+  let ps ← natsCSV (← kv ws "prices")
+  let win ← (← kv ws "win").toNat?
+  match ps with
+  | [p0, p1, p2, p3, p4] =>
+    let prices : Dims := ⟨p0, p1, p2, p3, p4⟩
+    let rs : RuleSource :=
+      { rulesAt := fun _ => c.r, chainID := fun _ => c.chain
+        expiry := fun t => let x := t + (win : Int); x - x % 1000 }
+    let fac : Factory Auth := { sign := fun _ => c.auth, address := c.faddr, maxBandwidth := c.bw, maxCompute := c.ac }
+    match generateTransaction env rs prices c.ts c.acts fac with
+    | none => some "err"
+    | some t =>
+      let u := units env c.r t
+      let fee := match u with | some u => mulSumChecked prices u | none => none
+      some s!"maxfee={ofLE64 t.base.maxFee} units={showDims u} fee={showOpt fee}"
   | _ => none
 
 def step (_ : Unit) (ws : List String) : Unit × String :=
   match ws with
   | "case" :: rest => ((), (run rest).getD "bad-op")
+  | "gen" :: rest => ((), (runGen rest).getD "bad-op")
   | _ => ((), "bad-op")
 
 def machine : Machine := { σ := Unit, init := (), step := step }
